@@ -10,7 +10,8 @@ package pipe
 //@ func pkg/pipe.NewPipe$1 props C08
 //@   arith int
 //@   requires r != nil && done != nil
-//@   assigns C.stage, C.cap, C.dst, C.src, C.drain_src
+//@   assigns C.stage, C.cap, C.dst, C.src, C.drain_src, FC.closed
+//@   ensures @C12 FC.closed[r]
 //@   ensures C.stage == 2 && C.cap == n && C.dst == writer && C.src == iface(r) && C.drain_src == iface(r)
 //@   callsite Close: assert @C08 C.stage == 2
 
